@@ -24,7 +24,9 @@ TodOf(v) == [sod |-> v.sod, ns |-> v.ns]
 DateInst(v) == Inst(v.dn, 0, 0)
 
 OkDate(dn) == [k |-> "ok", dn |-> dn]
-OkDt(i, off) == [k |-> "ok", dn |-> i.dn, sod |-> i.sod, ns |-> i.ns, off |-> off]
+\* eqc: every reading of the returned value (conversions, differences, text, a further setter or offset change)
+\* equals the same reading of a canonical value built from (timestamp, nanosecond, offset): one representation per value
+OkDt(i, off) == [k |-> "ok", dn |-> i.dn, sod |-> i.sod, ns |-> i.ns, off |-> off, eqc |-> TRUE]
 \* as_nanos, the offset, equality with a freshly built canonical Time, as_seconds and as_hms (stored, not local, fields)
 OkTime(t, off) == [k |-> "ok", nod |-> TodWide(t), off |-> off, eqc |-> TRUE,
                    secs |-> FromInt(t.sod), hms |-> <<FromInt(Hour(t.sod)), Minute(t.sod), Second(t.sod)>>]
@@ -52,6 +54,7 @@ DtShifted(a, amount, sign) ==
 \* date-field getters and setters work on the local view
 DtLocal(a) == LocalOf(InstOf(a), a.off)
 
+
 DtFields(a) ==
   LET l == DtLocal(a) IN
   IF ~l.ok THEN {AnyOutcome} ELSE
@@ -64,6 +67,19 @@ DtFields(a) ==
 DtFromLocal(a, dn2, sod2, ns2) ==
   LET u == UtcOf([dn |-> dn2, sod |-> sod2, ns |-> ns2], a.off)
   IN IF u.ok THEN {OkDt(Inst(u.dn, u.sod, u.ns), a.off)} ELSE {AnyOutcome}
+
+\* Month arithmetic on a value that carries an offset.  C05 fixes "same day of month, time of day and offset
+\* unchanged" but not whether the day of month is the stored (UTC) or the displayed (local) one: both are allowed,
+\* nothing else is.  r = the shift of the stored day.
+DtShiftMonthsOff(a, n, k, sign, r) ==
+  LET l == DtLocal(a) IN
+  IF ~l.ok THEN {AnyOutcome} ELSE
+  LET rl == ShiftMonthsWide(l.dn, n, k, sign)
+      viaStored == IF r.k # "ok" THEN {Panic}
+                   ELSE IF LocalOf(Inst(r.dn, a.sod, a.ns), a.off).ok THEN {OkDt(Inst(r.dn, a.sod, a.ns), a.off)}
+                   ELSE {AnyOutcome}
+      viaLocal == IF rl.k # "ok" THEN {Panic} ELSE DtFromLocal(a, rl.dn, l.sod, l.ns)
+  IN viaStored \cup viaLocal
 
 NoDay == [ok |-> FALSE]
 DayIs(dn) == [ok |-> TRUE, dn |-> dn]
@@ -234,25 +250,62 @@ Allowed(e, a, b) ==
     [] op \in {"dt_add_months", "dt_sub_months", "dt_add_years", "dt_sub_years"} ->
          LET k == IF op \in {"dt_add_years", "dt_sub_years"} THEN 12 ELSE 1
              r == ShiftMonthsWide(a.dn, e.n, k, SignOf(op))
-         IN IF a.off # 0 THEN {AnyOutcome}
-            ELSE IF r.k = "ok" THEN {OkDt(Inst(r.dn, a.sod, a.ns), a.off)} ELSE {Panic}
+         IN IF a.off = 0 THEN (IF r.k = "ok" THEN {OkDt(Inst(r.dn, a.sod, a.ns), a.off)} ELSE {Panic})
+            ELSE DtShiftMonthsOff(a, e.n, k, SignOf(op), r)
     [] op = "dt_since" -> {OkVal(Since(e.u, InstOf(a), InstOf(b)))}
     [] op \in {"dt_months_since", "dt_years_since"} ->
          IF a.off # 0 \/ b.off # 0 THEN {AnyOutcome}
          ELSE MonthsSinceAllowed(<<a.dn, a.sod, a.ns>>, <<b.dn, b.sod, b.ns>>, op = "dt_years_since")
+    \* C07 as the relation it states between months_since and add_months of the same implementation:
+    \* later >= earlier, n = later.months_since(earlier):  earlier.add_months(n) <= later < earlier.add_months(n + 1)
+    \* (asserted when the earlier value's day of month is at most 28 in its stored and in its displayed reading);
+    \* antisymmetry and years = months / 12 for every pair
+    [] op = "dt_months_bracket" ->
+         LET c == CmpInst(InstOf(a), InstOf(b))
+             early == IF c >= 0 THEN b ELSE a
+             le == DtLocal(early)
+             small == le.ok /\ Dn2Ymd(early.dn)[3] <= 28 /\ Dn2Ymd(le.dn)[3] <= 28
+         IN IF small THEN {[k |-> "ok", lo |-> TRUE, hi |-> TRUE, anti |-> TRUE, yrs |-> TRUE]}
+            ELSE {[k |-> "ok", lo |-> x, hi |-> y, anti |-> TRUE, yrs |-> TRUE] : x \in BOOLEAN, y \in BOOLEAN}
     [] op = "dt_dur_between" -> DtDurBetween(a, b)
     [] op = "dt_cmp" -> DtCmp(a, b)
     [] op = "dt_ts" -> {OkVal(TimestampOf(InstOf(a)))}
     [] op = "dt_from_ts" -> DtFromTimestamp(e.ts)
     [] op = "dt_get" -> DtFields(a)
+    \* as_ymd / as_hms / as_ymdhms: the calendar reading of the value.  For a value carrying an offset the
+    \* properties do not say whether these read the stored (UTC) or the displayed (local) fields: either is allowed.
+    [] op = "dt_as_ymdhms" ->
+         LET rd(dn, sod) == [k |-> "ok", ymd |-> Dn2Ymd(dn), hms |-> <<Hour(sod), Minute(sod), Second(sod)>>]
+             l == LocalOf(InstOf(a), a.off)
+         IN IF a.off = 0 THEN {rd(a.dn, a.sod)}
+            ELSE IF ~l.ok THEN {AnyOutcome} ELSE {rd(a.dn, a.sod), rd(l.dn, l.sod)}
+    \* the same fields read through format(), one symbol per pattern (y M d D e w q H m s nnnnn)
+    [] op = "dt_fmt_get" ->
+         LET l == DtLocal(a) IN
+         IF ~l.ok THEN {AnyOutcome} ELSE
+         LET ymd == Dn2Ymd(l.dn) IN
+         {[k |-> "ok", y |-> ymd[1], m |-> ymd[2], d |-> ymd[3], doy |-> Doy(l.dn), e |-> Weekday(l.dn) + 1,
+           w |-> IsoWeek(l.dn), q |-> Quarter(ymd[2]), h |-> Hour(l.sod), mi |-> Minute(l.sod), s |-> Second(l.sod),
+           n |-> l.ns]}
     [] op = "dt_set" -> DtSet(a, e.f, NatOf(e.v), Big(e.v))
     [] op = "dt_clear" -> DtClear(a, e.f)
     [] op = "dt_set_offset" -> DtSetOffset(a, e.o)
     [] op = "dt_as_offset" -> DtAsOffset(a, e.o)
     [] op = "dt_from_date" -> {OkDt(Inst(a.dn, 0, 0), 0)}
-    [] op = "dt_from_time" -> {OkDt(Inst(0, a.sod, a.ns), a.off)}
-    [] op = "dt_set_time" -> IF LocalOf(Inst(a.dn, b.sod, b.ns), a.off).ok
-                             THEN {OkDt(Inst(a.dn, b.sod, b.ns), a.off)} ELSE {AnyOutcome}
+    \* conversions between values that carry offsets: the stored reading or the displayed one (the properties
+    \* do not choose); with offset 0 they coincide
+    [] op = "dt_from_time" ->
+         LET lt == TodLocal(TodOf(a), a.off)
+             viaLocal == LET u == UtcOf([dn |-> 0, sod |-> lt.sod, ns |-> lt.ns], a.off)
+                         IN IF u.ok THEN {OkDt(Inst(u.dn, u.sod, u.ns), a.off)} ELSE {AnyOutcome}
+         IN {OkDt(Inst(0, a.sod, a.ns), a.off)} \cup (IF a.off = 0 THEN {} ELSE viaLocal)
+    [] op = "dt_set_time" ->
+         LET viaStored == IF LocalOf(Inst(a.dn, b.sod, b.ns), a.off).ok
+                          THEN {OkDt(Inst(a.dn, b.sod, b.ns), a.off)} ELSE {AnyOutcome}
+             l == DtLocal(a)
+             lt == TodLocal(TodOf(b), b.off)
+             viaLocal == IF ~l.ok THEN {AnyOutcome} ELSE DtFromLocal(a, l.dn, lt.sod, lt.ns)
+         IN viaStored \cup (IF a.off = 0 /\ b.off = 0 THEN {} ELSE viaLocal)
     \* now(): any instant between the two clock readings the environment took around the call, UTC
     [] op \in {"dt_now", "date_now", "time_now"} -> {[k |-> "between", lo |-> e.t0, hi |-> e.t1]}
     [] op = "dt_copy" -> {OkDt(InstOf(a), a.off)}
@@ -277,7 +330,8 @@ Allowed(e, a, b) ==
     [] op = "date_get" -> DateFieldsOut(a)
     [] op = "date_set" -> DateSet(a, e.f, NatOf(e.v), Big(e.v))
     [] op = "date_clear" -> DateClear(a, e.f)
-    [] op = "date_from_dt" -> {OkDate(a.dn)}
+    [] op = "date_from_dt" -> LET l == DtLocal(a) IN
+                              {OkDate(a.dn)} \cup (IF a.off = 0 THEN {} ELSE IF l.ok THEN {OkDate(l.dn)} ELSE {AnyOutcome})
     [] op = "date_copy" -> {OkDate(a.dn)}
     [] op = "date_default" -> {OkDate(0)}
     [] op = "date_from_ymd" -> DateFromYmd(e.y, e.m, e.d)
